@@ -1520,16 +1520,11 @@ int input_to (svalue_t * fun, int flag, int num_arg, svalue_t * args) {
   if (!command_giver || command_giver->flags & O_DESTRUCTED)
     return 0;
 
-  s = alloc_sentence ();
-  if (!set_call (command_giver, s, flag & ~I_SINGLE_CHAR))
-    {
-      /* LPC spec. says if input_to() is called more than once, only the first call succeeds.
-       * No error is raised for subsequent calls, but the sentence created for the subsequent
-       * call should be freed to avoid memory leaks.
-       */
-      free_sentence (s);
-      return 0;
-    }
+  /* LPC spec. says if input_to() is called more than once, only the first call succeeds.
+   * No error is raised for subsequent calls (same test as in set_call()).
+   */
+  if (!command_giver->interactive || command_giver->interactive->input_to)
+    return 0;
 
   /* Convert string to function pointer or use existing funptr */
   if (fun->type == T_STRING)
@@ -1541,12 +1536,7 @@ int input_to (svalue_t * fun, int flag, int num_arg, svalue_t * args) {
       opt_trace (TT_COMM|2, "set callback function to '%s' in object /%s", fun->u.string, current_object->name);
       callback_funp = make_lfun_funp_by_name (fun->u.string, &dummy); /* ref = 1, by sentence->function.f */
       if (!callback_funp)
-        {
-          /* set_call() has already attached the sentence: take it off again */
-          command_giver->interactive->input_to = 0;
-          free_sentence (s);
-          error ("Function '%s' not found in input_to", fun->u.string);
-        }
+        error ("Function '%s' not found in input_to", fun->u.string);
     }
   else if (fun->type == T_FUNCTION)
     {
@@ -1555,10 +1545,14 @@ int input_to (svalue_t * fun, int flag, int num_arg, svalue_t * args) {
     }
   else
     {
-      command_giver->interactive->input_to = 0;
-      free_sentence (s);
       error ("input_to: fun must be string or function");
     }
+
+  /* The sentence is complete before set_call() attaches it: set_call() writes telnet
+   * options to the user, a snooper sees them, and an error raised in his receive_snoop()
+   * leaves from there. The sentence stays attached then, and must be usable.
+   */
+  s = alloc_sentence ();
 
   /* Store function pointer (always use V_FUNCTION now) */
   s->function.f = callback_funp;
@@ -1578,6 +1572,12 @@ int input_to (svalue_t * fun, int flag, int num_arg, svalue_t * args) {
       s->args = NULL;
     }
 
+  if (!set_call (command_giver, s, flag & ~I_SINGLE_CHAR))
+    {
+      free_sentence (s); /* with the function pointer and the arguments */
+      return 0;
+    }
+
   return 1;
 }
 
@@ -1587,22 +1587,18 @@ int input_to (svalue_t * fun, int flag, int num_arg, svalue_t * args) {
  * user input character.
  */
 int get_char (svalue_t * fun, int flag, int num_arg, svalue_t * args) {
+
   sentence_t *s;
   funptr_t *callback_funp = 0;
 
   if (!command_giver || command_giver->flags & O_DESTRUCTED)
     return 0;
 
-  s = alloc_sentence ();
-  if (!set_call (command_giver, s, flag | I_SINGLE_CHAR))
-    {
-      /* LPC spec. says if get_char() is called more than once, only the first call succeeds.
-       * No error is raised for subsequent calls, but the sentence created for the subsequent
-       * call should be freed to avoid memory leaks.
-       */
-      free_sentence (s);
-      return 0;
-    }
+  /* LPC spec. says if get_char() is called more than once, only the first call succeeds.
+   * No error is raised for subsequent calls (same test as in set_call()).
+   */
+  if (!command_giver->interactive || command_giver->interactive->input_to)
+    return 0;
 
   /* Convert string to function pointer or use existing funptr */
   if (fun->type == T_STRING)
@@ -1612,26 +1608,25 @@ int get_char (svalue_t * fun, int flag, int num_arg, svalue_t * args) {
       dummy.type = T_NUMBER;
       dummy.u.number = 0;
       opt_trace (TT_COMM|2, "set callback function to '%s' in object /%s", fun->u.string, current_object->name);
-      callback_funp = make_lfun_funp_by_name (fun->u.string, &dummy);
+      callback_funp = make_lfun_funp_by_name (fun->u.string, &dummy); /* ref = 1, by sentence->function.f */
       if (!callback_funp)
-        {
-          /* set_call() has already attached the sentence: take it off again */
-          command_giver->interactive->input_to = 0;
-          free_sentence (s);
-          error ("Function '%s' not found in get_char", fun->u.string);
-        }
+        error ("Function '%s' not found in get_char", fun->u.string);
     }
   else if (fun->type == T_FUNCTION)
     {
       callback_funp = fun->u.fp;
-      callback_funp->hdr.ref++;
+      callback_funp->hdr.ref++; /* by sentence->function.f */
     }
   else
     {
-      command_giver->interactive->input_to = 0;
-      free_sentence (s);
       error ("get_char: fun must be string or function");
     }
+
+  /* The sentence is complete before set_call() attaches it: set_call() writes telnet
+   * options to the user, a snooper sees them, and an error raised in his receive_snoop()
+   * leaves from there. The sentence stays attached then, and must be usable.
+   */
+  s = alloc_sentence ();
 
   /* Store function pointer (always use V_FUNCTION now) */
   s->function.f = callback_funp;
@@ -1641,14 +1636,20 @@ int get_char (svalue_t * fun, int flag, int num_arg, svalue_t * args) {
   /* Store carryover args in SENTENCE (not interactive_t) */
   if (num_arg > 0)
     {
-      array_t *arg_array = allocate_empty_array (num_arg);
+      array_t *arg_array = allocate_empty_array (num_arg); /* ref = 1 by sentence->args */
       for (int i = 0; i < num_arg; i++)
         assign_svalue_no_free (&arg_array->item[i], &args[i]);
-      s->args = arg_array; /* ref = 1 by allocate_empty_array */
+      s->args = arg_array;
     }
   else
     {
       s->args = NULL;
+    }
+
+  if (!set_call (command_giver, s, flag | I_SINGLE_CHAR))
+    {
+      free_sentence (s); /* with the function pointer and the arguments */
+      return 0;
     }
 
   return 1;
